@@ -344,7 +344,7 @@ class ImplResult:
         return {"verdict": self.verdict, "vals": self.vals}
 
 
-def run_impl(binary, lines, batch_timeout=300, tag="x"):
+def run_impl(binary, lines, batch_timeout=300, tag="x", stall_timeout=45, max_hangs=4):
     """Run scenarios on the implementation.  Crash / hang of the binary = verdict for the scenario that was
     running; the binary is restarted after it."""
     n = len(lines)
@@ -356,22 +356,38 @@ def run_impl(binary, lines, batch_timeout=300, tag="x"):
     inp, outp = base + ".in", base + ".out"
     open(inp, "w").write("\n".join(" ".join(str(v) for v in l) for l in lines) + "\n")
     start = 0
-    restarts = 0
+    restarts = hangs = 0
     while start < n:
         if os.path.exists(outp):
             os.remove(outp)
         env = dict(os.environ, VERIF_IN=inp, VERIF_OUT=outp, VERIF_FROM=str(start))
         verdict_on_fail = "crash"
         tail = ""
-        try:
-            p = subprocess.run([binary, "-test.run", "^TestHarness$", "-test.timeout", "%ds" % (batch_timeout + 30)],
-                               env=env, timeout=batch_timeout, stdout=subprocess.PIPE, stderr=subprocess.STDOUT, text=True)
-            tail = p.stdout[-3000:]
-        except subprocess.TimeoutExpired as e:
-            verdict_on_fail = "hang"
-            tail = (e.stdout or b"")[-3000:] if isinstance(e.stdout, bytes) else (e.stdout or "")[-3000:]
-            if isinstance(tail, bytes):
-                tail = tail.decode("utf8", "replace")
+        # no progress in the result file for stall_timeout seconds = the running scenario hangs (a scenario takes
+        # milliseconds; the slowest stress scenarios a few seconds)
+        logf = open(base + ".log", "w+")
+        proc = subprocess.Popen([binary, "-test.run", "^TestHarness$", "-test.timeout", "%ds" % (batch_timeout + 30)],
+                                env=env, stdout=logf, stderr=subprocess.STDOUT, text=True)
+        t0 = last_change = time.time()
+        last_size = -1
+        while proc.poll() is None:
+            time.sleep(0.05)
+            now = time.time()
+            try:
+                size = os.path.getsize(outp)
+            except OSError:
+                size = 0
+            if size != last_size:
+                last_size, last_change = size, now
+            if now - t0 > batch_timeout or now - last_change > stall_timeout:
+                verdict_on_fail = "hang"
+                proc.kill()
+                proc.wait()
+                break
+        logf.seek(0)
+        tail = logf.read()[-3000:]
+        logf.close()
+        os.remove(base + ".log")
         running = None
         if os.path.exists(outp):
             for l in open(outp):
@@ -396,7 +412,8 @@ def run_impl(binary, lines, batch_timeout=300, tag="x"):
         results[bad] = ImplResult(verdict_on_fail, [], raw=tail[-1500:])
         start = bad + 1
         restarts += 1
-        if restarts > 200:
+        hangs += 1 if verdict_on_fail == "hang" else 0
+        if restarts > 200 or hangs >= max_hangs:
             for i in range(n):
                 if results[i] is None:
                     results[i] = ImplResult("not-run", [])
@@ -534,6 +551,8 @@ def run_suite(pid, suite, scenarios, binaries):
     verdicts = {}
     for sc, ir, mr in zip(scenarios, impl, model):
         verdicts[ir.verdict] = verdicts.get(ir.verdict, 0) + 1
+        if ir.verdict == "not-run":     # the run was cut short after several hangs, each already recorded
+            continue
         if suite.monitor is not None:
             for what, k in suite.monitor(sc, ir):
                 failures.append(Failure("monitor", sc, what, ir, mr, key=k))
